@@ -105,6 +105,10 @@ type vSide struct {
 	name string
 	lc   *LightningChannel
 	out  []vMsg
+	// stale is a handle on the same channel fetched from the database at the
+	// start of the behaviour and never refreshed (what the chain arbitrator
+	// and the chain watcher hold in the daemon)
+	stale *channeldb.OpenChannel
 }
 
 type vMsg struct {
@@ -307,6 +311,14 @@ func TestVerifChannelExec(t *testing.T) {
 		nonOpener := map[string]string{"A": "B", "B": "A"}[opener]
 		sides := map[string]*vSide{opener: {name: opener, lc: alice}, nonOpener: {name: nonOpener, lc: bob}}
 		other := map[string]string{"A": "B", "B": "A"}
+		for _, s := range sides {
+			st := s.lc.channelState
+			chans, ferr := st.Db.FetchOpenChannels(st.IdentityPub)
+			if ferr != nil || len(chans) != 1 {
+				t.Fatalf("stale handle: %v", ferr)
+			}
+			s.stale = chans[0]
+		}
 		pres := map[[32]byte][32]byte{}
 		lastPre := map[string][32]byte{} // per party+amount, for duplicates
 		npre := 0
@@ -435,6 +447,14 @@ func TestVerifChannelExec(t *testing.T) {
 					s.lc = nlc
 					s.out = nil
 				}
+			case "SoftDisconnect":
+				// the transport dropped, nobody reloaded the channels
+				for _, s := range sides {
+					s.out = nil
+				}
+			case "StaleTouch":
+				// a status update that sets no bit, through the stale handle
+				err = me.stale.ApplyChanStatus(channeldb.ChanStatusDefault)
 			case "SendReest":
 				var m *lnwire.ChannelReestablish
 				m, err = me.lc.channelState.ChanSyncMsg()
@@ -473,6 +493,7 @@ func TestVerifChannelExec(t *testing.T) {
 							CommitSig: mm.CommitSig, HtlcSigs: mm.HtlcSigs, PartialSig: mm.PartialSig}})
 					case *lnwire.RevokeAndAck:
 						me.out = append(me.out, vMsg{kind: "rev", rev: mm})
+						relh = vRelHeight(me.lc, mm)
 					default:
 						me.out = append(me.out, vMsg{kind: fmt.Sprintf("%T", x)})
 					}
